@@ -37,7 +37,7 @@ MODES = [
     ("check", ["--check"]), ("json", ["--emit", "json"]), ("checkstyle", ["--emit", "checkstyle"]),
 ]
 KINDS = ["unclosed", "stray", "lexer", "truncate", "recoverable", "recoverable", "badutf8", "missing", "ambiguous", "dirforfile",
-         "open-errno", "read-errno", "badconfig", "configpath", "noroot", "panic"]
+         "open-errno", "read-errno", "badconfig", "configpath", "noroot", "panic", "write-fault"]
 PANIC_SITES = ["parse_crate_mod", "parse_file_as_module", "parser_new"]
 
 
@@ -247,7 +247,60 @@ def apply_fault(case, world, vi, pos):
     return extra, plan, env, rootarg
 
 
+def _lane_write_fault(case):
+    """the run fails while a result is being stored (plain files mode): the disk fills up part-way through the write, or
+    the write fails outright.  Whatever else happens, every source file holds its complete original or its complete
+    formatted text"""
+    v = Verdict()
+    trees, order = case["trees"], case["order"]
+    with core.Scratch() as sc:
+        world = case["world"]
+        files = sorted({f for t in trees for f in t["reach"]})
+        sc.fresh_world(world)
+        argv = [_arg(case, i) for i in order]
+        ref = core.run_inv(sc, {"argv": argv, "cwd": case["cwd"], "hashseed": case["hashseed"]})
+        v.account(ref, nontrivial=False)
+        if ref.exit != 0 or ref.signal:
+            v.probe("reference-failed")
+            return v
+        orig = {f: core.file_bytes(world["files"][f]) for f in files if isinstance(world["files"].get(f), (str, dict)) and not (isinstance(world["files"][f], dict) and "symlink" in world["files"][f])}
+        fmt = {f: core.read_rel(sc.root, f) for f in orig}
+        rewritten = [f for f in orig if fmt[f] != orig[f]]
+        if not rewritten:
+            v.probe("nothing-to-rewrite")
+            return v
+        target = rewritten[case["sub"] % len(rewritten)]
+        n = len(fmt[target] or b"")
+        pos = [0, 1, n // 2, max(0, n - 1)][(case["sub"] // 7) % 4]
+        plan = ["* write 1 %s torn %d 28" % (os.path.normpath(target), pos)] if case["sub"] % 3 else ["* write 1 %s errno %d" % (os.path.normpath(target), [28, 5, 122][case["sub"] % 3])]
+        sc.fresh_world(world)
+        res = core.run_inv(sc, {"argv": argv, "cwd": case["cwd"], "hashseed": case["hashseed"], "plan": plan})
+        v.planned("write-fault")
+        if not any(e.fault for e in res.events):
+            v.account(res, nontrivial=False)
+            v.probe("fault-not-reached")
+            return v
+        v.fired("write-fault")
+        v.account(res)
+        det = "plan=%s argv=%s status=%s stderr=%r" % (plan, argv, res.status(), core.text_of(res.stderr)[:160])
+        ab = core.abnormal(res)
+        if ab:
+            v.add("C05:abnormal-exit|write-fault|%s" % ab.split("@")[0], det)
+        elif res.exit != 1:
+            v.add("C05:exit-status-not-1|write-fault", det)
+        for f in orig:
+            cur = core.read_rel(sc.root, f)
+            if cur not in (orig[f], fmt[f]):
+                v.add("C05:incomplete-write|write-fault", "%s holds %s bytes: neither its original (%d) nor its complete formatted text (%d); %s" % (
+                    f, "no" if cur is None else len(cur), len(orig[f]), len(fmt[f] or b""), det), file=f)
+                break
+        v.sample = {"kind": "write-fault", "plan": plan, "status": res.status()}
+    return v
+
+
 def execute(case):
+    if case["kind"] == "write-fault":
+        return _lane_write_fault(case)
     v = Verdict()
     mode, margs = case["mode"]
     trees = case["trees"]
